@@ -691,10 +691,22 @@ func CheckFixedPointLiteral(
 			return false
 		}
 
+		// The fractional bounds are expressed at the scale of the target type,
+		// so the fractional part of the literal must be compared at that scale, too.
+		// For example, the fractional part of `0.6` is 6 at scale 1, i.e. 60000000 at scale 8.
+		scaledFractional := new(big.Int).Mul(
+			expression.Fractional,
+			new(big.Int).Exp(
+				big.NewInt(10),
+				new(big.Int).SetUint64(uint64(scale-expression.Scale)),
+				nil,
+			),
+		)
+
 		if !fixedpoint.CheckRange(
 			expression.Negative,
 			expression.UnsignedInteger,
-			expression.Fractional,
+			scaledFractional,
 			minInt,
 			minFractional,
 			maxInt,
